@@ -123,6 +123,13 @@ func writeFailure(opts Opts, test string, c *Case, msg string) string {
 	return path
 }
 
+// CodeFault is a panic value harness utilities use when the code under test
+// breaks a contract the harness relies on (e.g. the frame builder hands out a
+// buffer smaller than requested). It fails the case like Fatalf does.
+type CodeFault struct{ Msg string }
+
+func (f CodeFault) Error() string { return f.Msg }
+
 // runBody executes the property body on the case, converting Fatalf and
 // stray panics into a message. rapid-internal control panics pass through.
 func runBody(c *Case, prop func(*Case)) (msg string, failed bool) {
@@ -131,6 +138,8 @@ func runBody(c *Case, prop func(*Case)) (msg string, failed bool) {
 			switch v := r.(type) {
 			case failure:
 				msg, failed = v.msg, true
+			case CodeFault:
+				msg, failed = v.Msg, true
 			default:
 				tn := fmt.Sprintf("%T", r)
 				if strings.HasPrefix(tn, "rapid.") {
